@@ -82,7 +82,19 @@ def hsla_obligations(eng, got, h, s_, l_, d, bgcol, name):
     pre-rounding value == CSS) and an abstraction of the cubic terms (see runner.discharge 'abstract')"""
     exact = [x * 255 for x in ref.css_hsl_exact(h, s_ / 100, l_ / 100)]
     blend = ref.source_over(exact, d, bgcol)
-    stage = [SNum(x) for x in list(eng.round_log.values())[-3:]] if len(eng.round_log) >= 3 else None
+    # the round() calls of the opaque hsl stage: those whose argument mentions the hsl numerals (other roundings on the path,
+    # e.g. of a float background, do not); the achromatic branch rounds ONE term for all three channels
+    from ..runner import _symbols
+    hv = set()
+    for q in (h, s_, l_):
+        hv |= set(_symbols(symx.lift(q).real()))
+    cand = [x for x in eng.round_log.values() if _symbols(x) & hv]
+    if len(cand) >= 3:
+        stage = [SNum(x) for x in cand[-3:]]
+    elif len(cand) == 1:
+        stage = [SNum(cand[0])] * 3
+    else:
+        stage = None
     abstract, lemmas, req = [], [], []
     if stage is not None:
         for ch, x, e in zip("rgb", stage, exact):
